@@ -198,7 +198,17 @@ def one_case(mon, rng, sc, c):
             eps += AAVE_QUANTUM
         if has_squeeth:
             eps += Decimal("1e-9") * (abs(nv0) + abs(nv1) + gross)
-        if op.kind == "revalue":
+        lent_touched = False
+        if has_squeeth:
+            # a uniswap operation on a range whose position is lent to a vault grows / shrinks the vault's collateral: tokens
+            # move between the wallet (pool price) and the vault's LP valuation (index price), the same revaluation
+            for mk in pre:
+                if isinstance(pre.get(mk), dict) and isinstance(post.get(mk), dict):
+                    for k in set(pre[mk]) | set(post[mk]):
+                        a, b = pre[mk].get(k), post[mk].get(k)
+                        if a != b and any(isinstance(x, tuple) and len(x) == 4 and x[3] is True for x in (a, b)):
+                            lent_touched = True
+        if op.kind == "revalue" or lent_touched:
             eps += revalue_gap(fz) * (abs(nv0) + abs(nv1))
         d = nv1 - nv0
         ctx = lambda: (f"{op.market}.{op.label}[{op.cls}] {outcome}"
